@@ -122,9 +122,8 @@ func (r *Router) Match(method, path string) (route *Route, ps Params, alm []stri
 func (r *Router) QuickMatch(method, path string) (route *Route, ps Params, alm []string) {
 	if r.interceptAll != "" {
 		path = r.interceptAll
-	} else {
-		path = r.formatPath(path)
 	}
+	path = r.formatPath(path)
 
 	// do match route
 	if route, ps = r.match(method, path); route != nil {
